@@ -340,7 +340,12 @@ fn render_stmt(e: &Ex) -> Option<String> {
         }
         Ex::OpAssign(every, l, op, rhs) => {
             let ev = if *every { "every " } else { "" };
-            format!("{}{} {}= {}", ev, render_lv(l, false), op, render_rhs(rhs))
+            let lhs = match &**l {
+                // `(d[k] = dflt) f= v`
+                Lv::Default(..) => format!("({})", render_lv(l, false)),
+                _ => render_lv(l, false),
+            };
+            format!("{}{} {}= {}", ev, lhs, op, render_rhs(rhs))
         }
         Ex::Swap(a, b) => format!("swap {}, {}", render_lv(a, true), render_lv(b, true)),
         Ex::StructDef(name, fields) => format!(
@@ -389,6 +394,12 @@ pub fn render(e: &Ex) -> String {
             a.as_ref().map(|e| atom(e)).unwrap_or_default(),
             b.as_ref().map(|e| atom(e)).unwrap_or_default()
         ),
+        // unary minus on a literal, written the way it is written by hand
+        Ex::Call(f, args)
+            if **f == Ex::Var("-".to_string()) && args.len() == 1 && matches!(&args[0], Ex::Num(NumLit::Int(n)) if *n >= 0) =>
+        {
+            format!("(-{})", atom(&args[0]))
+        }
         Ex::Call(f, args) => format!(
             "{}({})",
             atom(f),
